@@ -110,6 +110,7 @@ structure Inv (cfg : Cfg) (s : State) : Prop where
   pend_amt : ∀ c sr, (s.pc c = .uUnl (.readersPass sr) ∨ s.pc c = .uUnl (.passOnly sr)) → s.pend = sr - s.qsize
   rp_w0 : ∀ c sr, s.pc c = .uUnl (.readersPass sr) → s.W = 0 ∧ s.Q.length ≠ 0
   po_q : ∀ c sr, s.pc c = .uUnl (.passOnly sr) → s.Q.length = 0
+  pass_ge : ∀ c sr, (s.pc c = .uUnl (.readersPass sr) ∨ s.pc c = .uUnl (.passOnly sr)) → s.qsize ≤ sr
   jp_le : s.pass + s.pend ≤ s.ifl.length
   -- J6: the queues
   j6 : s.cfg.fifo = true → s.prio ≤ s.WQ.length ∧ (s.Q.length = 0 → s.prio = s.WQ.length)
@@ -122,6 +123,8 @@ structure Inv (cfg : Cfg) (s : State) : Prop where
   j7 : ∀ c, (s.pc c).isULock = true → s.torun.length = 0
   -- histories
   busy_todo : ∀ c, s.pc c ≠ .idle → s.todo c ≠ []
+  out_idle : ∀ c, cfg.prog c = [] → s.pc c = .idle
+  out_todo : ∀ c, cfg.prog c = [] → s.todo c = []
   rounds : ∀ c, s.enters c + s.fails c + (s.todo c).length =
     (cfg.prog c).length + (if (s.pc c).isInRound then 1 else 0)
   parks : ∀ c, s.parks c = s.grants c + (if (s.pc c).isParked then 1 else 0)
